@@ -131,11 +131,13 @@ struct ChainH {
     sizes: Vec<usize>,
     pend: bool,
     max_cont: usize,
+    /// the peer may pad its replies with extra NUL bytes (always on when items are held)
+    pad: bool,
 }
 
 impl ChainH {
     fn config(&self) -> Value {
-        json!({"max_calls": self.max_calls, "cuts": if self.cuts == Cuts::FreeInter { "free-inter" } else { "dev" }, "hold": self.hold, "sizes": self.sizes, "pend": self.pend, "max_cont": self.max_cont})
+        json!({"max_calls": self.max_calls, "cuts": if self.cuts == Cuts::FreeInter { "free-inter" } else { "dev" }, "hold": self.hold, "sizes": self.sizes, "pend": self.pend, "max_cont": self.max_cont, "pad": self.pad})
     }
     fn from_config(v: &Value) -> Option<ChainH> {
         Some(ChainH {
@@ -145,6 +147,7 @@ impl ChainH {
             sizes: v["sizes"].as_array()?.iter().map(|x| x.as_u64().unwrap_or(8) as usize).collect(),
             pend: v["pend"].as_bool()?,
             max_cont: v["max_cont"].as_u64()? as usize,
+            pad: v["pad"].as_bool().unwrap_or(v["hold"].as_bool()?),
         })
     }
     fn size(&self, cx: &Ctx) -> usize {
@@ -242,7 +245,7 @@ impl Harness for ChainH {
         }
         // C11 only: the peer may pad its replies with extra NUL bytes (a NUL where a message would
         // start is padding to the connection; held data must survive that like anything else)
-        let pad = if self.hold { [0usize, 1, 3][cx.choose(3, "padding-after-every-reply:0|1|3")] } else { 0 };
+        let pad = if self.pad { [0usize, 1, 3][cx.choose(3, "padding-after-every-reply:0|1|3")] } else { 0 };
         if pad > 0 {
             cx.goal("replies-padded-with-extra-NULs");
         }
@@ -1107,16 +1110,21 @@ pub fn run_c06(tier: Tier) -> i32 {
     let wall = std::time::Duration::from_secs(tier.pick(60, 1500));
     let plan: Vec<(&str, ChainH, u32)> = match tier {
         Tier::Quick => vec![
-            ("inter/<=3calls", ChainH { max_calls: 3, cuts: Cuts::FreeInter, hold: false, sizes: vec![8], pend: true, max_cont: 2 }, 1),
-            ("dev/<=4calls", ChainH { max_calls: 4, cuts: Cuts::Dev, hold: false, sizes: vec![8], pend: true, max_cont: 2 }, 1),
+            ("inter/<=3calls", ChainH { max_calls: 3, cuts: Cuts::FreeInter, hold: false, sizes: vec![8], pend: true, max_cont: 2, pad: false }, 1),
+            ("dev/<=4calls", ChainH { max_calls: 4, cuts: Cuts::Dev, hold: false, sizes: vec![8], pend: true, max_cont: 2, pad: false }, 1),
         ],
         Tier::Thorough => vec![
-            ("inter/<=4calls", ChainH { max_calls: 4, cuts: Cuts::FreeInter, hold: false, sizes: vec![8], pend: true, max_cont: 2 }, 1),
-            ("dev2/<=4calls", ChainH { max_calls: 4, cuts: Cuts::Dev, hold: false, sizes: vec![8], pend: true, max_cont: 2 }, 2),
-            ("dev1/<=5calls", ChainH { max_calls: 5, cuts: Cuts::Dev, hold: false, sizes: vec![8], pend: true, max_cont: 2 }, 1),
-            ("natural/<=6calls", ChainH { max_calls: 6, cuts: Cuts::Dev, hold: false, sizes: vec![8], pend: false, max_cont: 1 }, 0),
+            ("inter/<=4calls", ChainH { max_calls: 4, cuts: Cuts::FreeInter, hold: false, sizes: vec![8], pend: true, max_cont: 2, pad: false }, 1),
+            ("dev2/<=4calls", ChainH { max_calls: 4, cuts: Cuts::Dev, hold: false, sizes: vec![8], pend: true, max_cont: 2, pad: false }, 2),
+            ("dev1/<=5calls", ChainH { max_calls: 5, cuts: Cuts::Dev, hold: false, sizes: vec![8], pend: true, max_cont: 2, pad: false }, 1),
+            ("natural/<=6calls", ChainH { max_calls: 6, cuts: Cuts::Dev, hold: false, sizes: vec![8], pend: false, max_cont: 1, pad: false }, 0),
         ],
     };
+    let mut plan = plan;
+    // a peer that pads its replies with extra NUL bytes (a NUL where a message would start is
+    // padding to the connection): the owed replies are the same
+    plan.push(("padded-replies/dev/<=3calls", ChainH { max_calls: 3, cuts: Cuts::Dev, hold: false, sizes: vec![8], pend: false, max_cont: 1, pad: true }, tier.pick(1, 2)));
+    rep.require_goal("replies-padded-with-extra-NULs");
     for (name, h, budget) in plan {
         let cfg = Config { budget, max_wall: wall, ..Default::default() };
         rep.add(explore(name, h.config(), &h, &cfg));
@@ -1143,12 +1151,12 @@ pub fn run_c11(tier: Tier) -> i32 {
     let wall = std::time::Duration::from_secs(tier.pick(60, 1500));
     let plan: Vec<(&str, ChainH, u32)> = match tier {
         Tier::Quick => vec![
-            ("hold-inter/<=2calls", ChainH { max_calls: 2, cuts: Cuts::FreeInter, hold: true, sizes: vec![20, 300], pend: false, max_cont: 2 }, 1),
-            ("hold-dev/<=3calls", ChainH { max_calls: 3, cuts: Cuts::Dev, hold: true, sizes: vec![20, 300], pend: false, max_cont: 1 }, 1),
+            ("hold-inter/<=2calls", ChainH { max_calls: 2, cuts: Cuts::FreeInter, hold: true, sizes: vec![20, 300], pend: false, max_cont: 2, pad: true }, 1),
+            ("hold-dev/<=3calls", ChainH { max_calls: 3, cuts: Cuts::Dev, hold: true, sizes: vec![20, 300], pend: false, max_cont: 1, pad: true }, 1),
         ],
         Tier::Thorough => vec![
-            ("hold-inter/<=3calls", ChainH { max_calls: 3, cuts: Cuts::FreeInter, hold: true, sizes: vec![20, 200, 300, 600], pend: false, max_cont: 2 }, 1),
-            ("hold-dev/<=4calls", ChainH { max_calls: 4, cuts: Cuts::Dev, hold: true, sizes: vec![20, 300], pend: true, max_cont: 2 }, 2),
+            ("hold-inter/<=3calls", ChainH { max_calls: 3, cuts: Cuts::FreeInter, hold: true, sizes: vec![20, 200, 300, 600], pend: false, max_cont: 2, pad: true }, 1),
+            ("hold-dev/<=4calls", ChainH { max_calls: 4, cuts: Cuts::Dev, hold: true, sizes: vec![20, 300], pend: true, max_cont: 2, pad: true }, 2),
         ],
     };
     for (name, h, budget) in plan {
